@@ -25,6 +25,8 @@ def obligations(ctx):
                                       "sum_k c_jk x_k; c_jk vs omega^((1+4 bitrev j)k) and rounding radii; sound unit-input alarm rule"))
     obs += layout_obs(ctx)
     obs += schedule_obs(ctx)
+    from vf.props import c15
+    obs += c15.simple_all_obs(ctx)  # the transforms reached through their caching *_simple entry points: the right table for every dimension 2^0..2^16
     return obs
 
 
